@@ -325,8 +325,14 @@ def backmap_case(ctx, stream, replay, meta, fudge, via, np_seed, second_pass=Non
                          templates=[[k, [[n, v3(vec)] for n, vec in t.items()]] for k, t in meta.templates.items()],
                          residues=residues))
     spec_of = []
+    unplaced = []
     for r in res_info:
         if not r["backmap"]:
+            continue
+        missing = [(a, name) for a, name in r["atoms"] if mol.nodes[a].get("position") is None]
+        if missing:
+            # an atom of a backmapped residue without coordinates: judged as such, nothing else can be said about it
+            unplaced.append((r, missing))
             continue
         placed = [[name, v3(mol.nodes[a]["position"])] for a, name in r["atoms"]]
         reqs.append(dict(op="spec", tol=TOL_SPEC, eps=EPS_PLANAR, f=rat_str(fudge),
@@ -336,6 +342,10 @@ def backmap_case(ctx, stream, replay, meta, fudge, via, np_seed, second_pass=Non
 
     def judge(answers):
         idx = 0
+        for r, missing in unplaced:
+            ctx.oracle_fail("atom-not-placed", "after backmapping, atoms %s of residue resid=%d (template %s, atoms %s) "
+                            "have no coordinates; input %s" % (missing, r["resid"], r["template"],
+                                                               [n for _, n in r["atoms"]], replay), replay)
         if captured:
             ans = answers[idx]
             idx += 1
@@ -351,6 +361,8 @@ def backmap_case(ctx, stream, replay, meta, fudge, via, np_seed, second_pass=Non
                 if sorted(model) != expected_keys:
                     agree, detail = False, "model wrote atoms %s, expected %s" % (sorted(model), expected_keys)
                 for key in expected_keys:
+                    if agree and mol.nodes[key].get("position") is None:
+                        agree, detail = False, "atom %d has no coordinates" % key
                     if agree and not vec_close(mol.nodes[key]["position"], model[key]):
                         agree = False
                         detail = "atom %d: impl %s model %s" % (key, list(map(float, mol.nodes[key]["position"])),
